@@ -165,22 +165,6 @@ def stepInject (st : St) (single : Bool) (tyW keyW impl : String) : St × String
     else if missingOracle then (st2, s!"DIFF model key string {sOf (ks.getD [])} has no oracle hash (canonical strings disagree)")
     else (st2, verdict model impl)
 
-/-- guard of the known finding `C34-float-literal-rounding`: the literal is written with more than 15 digits
-(leading zeros aside, trailing zeros included) or its integer significand needs a power of ten beyond 10^22 — outside the range in which serde_json's
-default float parser (no `float_roundtrip`) is exact -/
-def floatLitOutsideExactRange (lit : String) : Bool :=
-  let m := if lit.startsWith "-" then (lit.drop 1).toString else lit
-  let (mant, ex) := match m.splitOn "e" with
-    | [a, b] => (a, b.toInt?.getD 0)
-    | _ => (m, 0)
-  let (ip, fr) := match mant.splitOn "." with
-    | [a, b] => (a, b)
-    | _ => (mant, "")
-  -- serde_json accumulates every written digit (trailing zeros included) into the significand
-  let digits := (ip.toList ++ fr.toList).dropWhile (· == '0')
-  let e10 : Int := ex - fr.length
-  decide (digits.length > 15) || decide (e10.natAbs > 22)
-
 def step (st : St) (line : String) : St × String :=
   let (op, impl?) := splitCase line
   let impl := impl?.getD ""
@@ -198,12 +182,11 @@ def step (st : St) (line : String) : St × String :=
     | some s, some v => ({ st with hs := (s, v) :: st.hs }, "")
     | _, _ => (st, "BADLINE")
   | ["fkey", _lit] =>
-    -- float literal probe: the same literal through both paths must reach the same replica
+    -- float literal probe (full strength since serde_json `float_roundtrip` is on): the same literal, any number of
+    -- digits, must reach the same replica through both paths
     (match impl.splitOn "," with
      | [a, b] =>
        (st, if a == b then "ok"
-            else if floatLitOutsideExactRange _lit then
-              s!"KNOWN[C34-float-literal-rounding] the same float literal reached {a} when injected singly and {b} in a batch"
             else s!"JUDGE the same float literal reached {a} when injected singly and {b} in a batch")
      | _ => (st, "BADLINE"))
   | ["inj", ty, key] => stepInject st true ty key impl
